@@ -74,6 +74,8 @@ def generate(rng, tier):
                 sched.append('w')
             if rng.random() < 0.02:
                 sched.append(rng.choice(['t', 'e']))
+            if rng.random() < 0.03:
+                sched.append('h')   # the peer's FIN has arrived while earlier bytes are still unread
         rej = '-' if rng.random() < 0.9 else str(rng.randrange(k))
         ops.append('op frame %s %s %s %s' % (rd, rej, hx(s), ' '.join(sched)))
     cases = batch(ops, 'fr', 25)
